@@ -162,11 +162,11 @@ Proof. exact resolution_budget_stack. Qed.
 Print Assumptions C12_resolution_budget_stack.
 
 Theorem C12_resolution_completes_on_add : forall P c k i ch t0 ws now v,
-  waiting P c k i ch t0 ws -> now <= t0 + p_age P -> v <> 0 ->
+  Inv c -> waiting P c k i ch t0 ws -> now <= t0 + p_age P -> v <> 0 ->
   exists c', add P c now k v = Some (c', map (Notify (Some ch)) ws ++ [Close ch]) /\
     (forall now' res w', now' <= t0 + p_age P -> no_static res ->
-       exists c'', get_p P c' now' k res w' = (c'', GAddr v, [])) /\
+       exists c'', get P c' now' k res w' = Some (c'', GAddr v, [])) /\
     (forall now' att, now' <= t0 + p_age P ->
        exists c'', checkLinkRequest P c' now' k att = Some (c'', true, [])).
-Proof. exact resolution_completes_on_add. Qed.
+Proof. exact resolution_completes_on_add_get. Qed.
 Print Assumptions C12_resolution_completes_on_add.
